@@ -1,1 +1,158 @@
-From Ont Require Import Model.Program.
+(** C23 — Signature scripts parse back to their keys and give order-free addresses.
+
+    Model: Model/Program.v (core/program/program.go and core/types/address.go; opcodes, key-type
+    tags and MULTI_SIG_MAX_PUBKEY_SIZE from Gen/ProgramConsts.v, the bookkeeper threshold from
+    Gen/ProgramFormulas.v).  Keys are abstract records (sort fields + canonical serialization);
+    keypair.DeserializePublicKey is the universally quantified function [deser]; the address
+    hashes are the universally quantified functions [H] and [Keth].
+
+    Hypotheses about keys, each checked on the implementation by the driver on every run:
+    - [key_ok deser k]: DeserializePublicKey (SerializePublicKey k) = k, the serialization is
+      non-empty and shorter than 2^32 bytes;
+    - [key_known k]: k has one of the four key types GetKeyType knows;
+    - [keys_canon ks]: keys of the set that the sort order does not separate (same type, curve,
+      X, Y) are the same key;
+    - [deser b = None] for every b of at most 3 bytes ("too short pubkey"). *)
+From Coq Require Import List Bool NArith ZArith Permutation Lia.
+Import ListNotations.
+From Ont Require Import Lib.Bytes Model.Codec Gen.ProgramConsts Model.Program Proofs.Codec Proofs.Program.
+Local Open Scope N_scope.
+
+(** 1. A single-key script parses back to its key with threshold 1 (every key type, every
+    serialization length up to 2^32: PUSHBYTESn, PUSHDATA1, PUSHDATA2 and PUSHDATA4 forms). *)
+Theorem c23_parse_build_single : forall deser k, key_ok deser k ->
+  exists prog, program_from_pubkey k = Some prog /\ get_program_info deser prog = inl ([k], 1).
+Proof. exact parse_build_single_proof. Qed.
+Print Assumptions c23_parse_build_single.
+
+(** 2. An m-of-n script built from any key list in any order, for exactly the (m, n) the code
+    accepts (1 <= m <= n, 2 <= n <= 16), parses back to the sorted keys and the threshold. *)
+Theorem c23_parse_build_multi : forall deser,
+  (forall b, (length b <= 3)%nat -> deser b = None) ->
+  forall keys m, Forall (key_ok deser) keys -> multi_params_ok m (Z.of_nat (length keys)) = true ->
+  exists prog, program_from_multi_pubkey keys m = BOk prog /\
+               get_program_info deser prog = inl (sort_keys keys, Z.to_N m).
+Proof. exact parse_build_multi_proof. Qed.
+Print Assumptions c23_parse_build_multi.
+
+(** "sorted" means: a permutation of the input that is ordered by the key order. *)
+Theorem c23_sort_is_sorted_permutation : forall keys, Forall key_known keys ->
+  Permutation (sort_keys keys) keys /\ sorted_le (sort_keys keys).
+Proof. intros keys Hk. split; [apply sort_keys_perm|apply sort_keys_sorted; exact Hk]. Qed.
+Print Assumptions c23_sort_is_sorted_permutation.
+
+(** 3. Every ordering of a key set gives the same script, the same multi-signature address and
+    the same bookkeeper address (for any threshold, valid or not, and any hash functions). *)
+Theorem c23_addr_perm_invariant : forall H Keth keys keys' m,
+  Forall key_known keys -> keys_canon keys -> Permutation keys keys' ->
+  program_from_multi_pubkey keys m = program_from_multi_pubkey keys' m /\
+  address_from_multi_pubkeys H keys m = address_from_multi_pubkeys H keys' m /\
+  address_from_bookkeepers H Keth keys = address_from_bookkeepers H Keth keys'.
+Proof.
+  intros H Keth keys keys' m Hk Hc P. split; [|split].
+  - apply program_perm_invariant; assumption.
+  - apply addr_perm_invariant_proof; assumption.
+  - apply bookkeepers_perm_invariant; assumption.
+Qed.
+Print Assumptions c23_addr_perm_invariant.
+
+(** ... and for valid parameters that address is the hash of a script, not an error. *)
+Theorem c23_addr_defined : forall deser H,
+  (forall b, (length b <= 3)%nat -> deser b = None) ->
+  forall keys m, Forall (key_ok deser) keys -> multi_params_ok m (Z.of_nat (length keys)) = true ->
+  exists prog, address_from_multi_pubkeys H keys m = AOk (H prog) /\
+               get_program_info deser prog = inl (sort_keys keys, Z.to_N m).
+Proof.
+  intros deser H Hs keys m Hk Hok.
+  destruct (parse_build_multi_proof deser Hs keys m Hk Hok) as (prog & Hp & Hi).
+  exists prog. split; [|exact Hi]. unfold address_from_multi_pubkeys. rewrite Hok, Hp. reflexivity.
+Qed.
+Print Assumptions c23_addr_defined.
+
+(** 4. Invalid thresholds or key counts are rejected:
+    (a) by the builder and by the address function, for exactly the invalid (m, n) (m is a Go
+        int, any list length: m <= 0, m > n, n < 2, n > 16);
+    (b) by the parser on every byte string: whatever GetProgramInfo accepts is either a
+        CHECKSIG script with one key and threshold 1 or a CHECKMULTISIG script whose returned
+        threshold and key count satisfy 1 <= m <= n, 2 <= n <= 16;
+    (c) by the parser on the script PushNum(m) keys PushNum(n) CHECKMULTISIG assembled without the
+        builder's test, for every invalid (m, n) within uint16. *)
+Theorem c23_bad_params_rejected :
+  (forall keys m, program_from_multi_pubkey keys m = BErrParam <-> multi_params_ok m (Z.of_nat (length keys)) = false) /\
+  (forall H keys m, address_from_multi_pubkeys H keys m = AErrParam <-> multi_params_ok m (Z.of_nat (length keys)) = false) /\
+  (forall deser prog ks m, get_program_info deser prog = inl (ks, m) ->
+     (last prog 0 = OP_CHECKSIG /\ length ks = 1%nat /\ m = 1) \/
+     (last prog 0 = OP_CHECKMULTISIG /\ multi_params_ok (Z.of_N m) (Z.of_nat (length ks)) = true)) /\
+  (forall deser, (forall b, (length b <= 3)%nat -> deser b = None) ->
+   forall m ks prog, Forall (key_ok deser) ks -> m <= 65535 -> N.of_nat (length ks) <= 65535 ->
+     multi_script m ks (N.of_nat (length ks)) = Some prog -> N.of_nat (length prog) < two64 ->
+     multi_params_ok (Z.of_N m) (Z.of_nat (length ks)) = false ->
+     exists e, get_program_info deser prog = inr e).
+Proof.
+  split; [exact builder_rejects_iff|]. split; [exact address_rejects_iff|].
+  split; [exact accepted_params_valid_proof|]. exact bad_params_script_rejected_proof.
+Qed.
+Print Assumptions c23_bad_params_rejected.
+
+(** The accepted range, spelled out. *)
+Theorem c23_params_range : forall m n, multi_params_ok m n = true <-> (1 <= m <= n /\ 2 <= n <= 16)%Z.
+Proof.
+  intros m n. split; [apply multi_params_bounds|].
+  intros [H1 H2]. unfold multi_params_ok, MULTI_SIG_MAX_PUBKEY_SIZE.
+  repeat (apply andb_true_intro; split); try apply Z.leb_le; try apply Z.ltb_lt; lia.
+Qed.
+Print Assumptions c23_params_range.
+
+(** 5. The parser is total on all byte strings (any deserializer): it returns keys and a
+    threshold or one of the implementation's errors, never the model's out-of-fuel value; and it
+    stays inside its buffer: PeekOpCode's BackUp(1) never wraps (the source is left unchanged),
+    every ReadBytes moves the offset forward within the buffer and returns a slice of it. *)
+Theorem c23_parser_total :
+  (forall deser prog, N.of_nat (length prog) < two64 -> get_program_info deser prog <> inr EFuel) /\
+  (forall prog, N.of_nat (length prog) < two64 -> get_param_info prog <> inr EFuel) /\
+  (forall s c s', src_ok s -> peek_opcode s = inl (c, s') -> s' = s /\ (off s < length (buf s))%nat) /\
+  (forall s d s', src_ok s -> read_bytes s = inl (d, s') ->
+     buf s' = buf s /\ (off s < off s' <= length (buf s))%nat /\ src_ok s' /\
+     (length d <= off s')%nat /\ d = slice (buf s) (off s' - length d) (length d)).
+Proof.
+  split; [exact get_program_info_total|]. split; [exact get_param_info_total|].
+  split; [exact peek_opcode_same|exact read_bytes_ok].
+Qed.
+Print Assumptions c23_parser_total.
+
+(** Non-vacuity: two concrete keys of different types satisfy every hypothesis above, and the
+    theorems then give the concrete 1-of-2 script and its parse. *)
+Definition ex_k1 : pubkey := mkKey PK_EDDSA 0 9 0 [20; 25; 9; 9].
+Definition ex_k2 : pubkey := mkKey PK_ECDSA 2 5 7 [2; 1; 1; 1; 5].
+Definition ex_deser (b : bytes) : option pubkey :=
+  if bytes_eqb b (pk_ser ex_k1) then Some ex_k1 else if bytes_eqb b (pk_ser ex_k2) then Some ex_k2 else None.
+
+Example c23_nonvacuous :
+  Forall (key_ok ex_deser) [ex_k1; ex_k2] /\ Forall key_known [ex_k1; ex_k2] /\ keys_canon [ex_k1; ex_k2] /\
+  (forall b, (length b <= 3)%nat -> ex_deser b = None) /\
+  multi_params_ok 1 (Z.of_nat (length [ex_k1; ex_k2])) = true /\
+  program_from_multi_pubkey [ex_k1; ex_k2] 1 = BOk [81; 5; 2; 1; 1; 1; 5; 4; 20; 25; 9; 9; 82; 174] /\
+  get_program_info ex_deser [81; 5; 2; 1; 1; 1; 5; 4; 20; 25; 9; 9; 82; 174] = inl ([ex_k2; ex_k1], 1) /\
+  program_from_multi_pubkey [ex_k2; ex_k1] 1 = program_from_multi_pubkey [ex_k1; ex_k2] 1.
+Proof.
+  assert (K : Forall (key_ok ex_deser) [ex_k1; ex_k2]).
+  { assert (forall k, In k [ex_k1; ex_k2] -> key_ok ex_deser k) as A.
+    { intros k [<-|[<-|[]]]; (split; [vm_compute; reflexivity|split; [discriminate|vm_compute; reflexivity]]). }
+    apply Forall_forall. exact A. }
+  assert (KK : Forall key_known [ex_k1; ex_k2]).
+  { apply Forall_forall. intros k [<-|[<-|[]]]; unfold key_known; vm_compute; auto. }
+  assert (C : keys_canon [ex_k1; ex_k2]).
+  { intros a b [<-|[<-|[]]] [<-|[<-|[]]] E; try reflexivity; vm_compute in E; discriminate. }
+  assert (S : forall b, (length b <= 3)%nat -> ex_deser b = None).
+  { intros b Hl. unfold ex_deser.
+    destruct (bytes_eqb b (pk_ser ex_k1)) eqn:E1; [apply bytes_eqb_eq in E1; subst b; simpl in Hl; lia|].
+    destruct (bytes_eqb b (pk_ser ex_k2)) eqn:E2; [apply bytes_eqb_eq in E2; subst b; simpl in Hl; lia|].
+    reflexivity. }
+  split; [exact K|]. split; [exact KK|]. split; [exact C|]. split; [exact S|]. split; [reflexivity|].
+  destruct (c23_parse_build_multi ex_deser S [ex_k1; ex_k2] 1%Z K eq_refl) as (prog & Hp & Hi).
+  assert (Eprog : program_from_multi_pubkey [ex_k1; ex_k2] 1 = BOk [81; 5; 2; 1; 1; 1; 5; 4; 20; 25; 9; 9; 82; 174])
+    by (vm_compute; reflexivity).
+  rewrite Eprog in Hp. injection Hp as <-.
+  split; [exact Eprog|]. split; [exact Hi|].
+  symmetry. apply (c23_addr_perm_invariant (fun b => b) (fun b => b)); auto. apply perm_swap.
+Qed.
